@@ -31,6 +31,7 @@ type textOpts struct {
 	maxAtoms  int
 	noPunct   []string // punctuation atoms to leave out
 	onlyASCII bool
+	feff      bool // keep U+FEFF (zero-width no-break space inside a text; a byte-order mark only at the very start of a document)
 	raw       bool // keep everything: line terminators, NUL, leading/trailing white space (hostile texts)
 }
 
@@ -109,7 +110,11 @@ func sanitizeText(s string, o textOpts) string {
 		switch r {
 		case '\n', '\r', '\u0085', '\u2028', '\u2029', '\v', '\f':
 			return -1 // line terminators (and the two ASCII vertical separators) are outside every model
-		case 0xFEFF, 0, unicode.ReplacementChar:
+		case 0xFEFF:
+			if !o.feff {
+				return -1
+			}
+		case 0, unicode.ReplacementChar:
 			return -1
 		case '\u00a0':
 			if !o.nbsp {
